@@ -47,6 +47,16 @@ def run(model: Model, rep: Report) -> None:
     s3 = "".join(unparse(si.node).split())
     r1.check("if'ToUnicode'inspec:strm=stream_value(spec['ToUnicode'])self.unicode_map=FileUnicodeMap()CMapParser(self.unicode_map,BytesIO(strm.get_data())).run()" in s3, site(si), si.qualname, "a ToUnicode stream is parsed into a fresh map", why="changed")
 
+    r13 = rep.rule("C06-R13", "GUARD", "Type 1 built-in encoding: the font program's own encoding is read whenever the font has no /Encoding and a FontFile is present - independently of ToUnicode (codes ToUnicode does not cover still go through it)", 1)
+    t1 = model.func(F + "PDFType1Font.__init__")
+    uses = [n for n in walk_no_nested(t1.node) if isinstance(n, ast.Call) and (dotted(n.func) or "") == "Type1FontHeaderParser"]
+    if not uses:
+        raise AnchorMissing("PDFType1Font.__init__: Type1FontHeaderParser(...) not found")
+    from ..util import guard_conjuncts
+
+    g13 = guard_conjuncts(t1, uses[0])
+    want13 = {"'Encoding'notinspec", "'FontFile'indescriptor"}
+    r13.check(g13 == want13, site(t1, uses[0]), t1.qualname, "header parser runs under: 'Encoding' not in spec and 'FontFile' in descriptor", why=f"conditions are {sorted(g13)}: with a further condition the built-in encoding is skipped for some fonts and their uncovered codes fall back to StandardEncoding")
     # ---------------------------------------------------------------- R7 (shared with C07-R4)
     from .c07 import tounicode_ranges_rule
 
